@@ -362,6 +362,10 @@ class Robust:
     def add(self, out, label, line):
         if len(line) > 3000000:
             return
+        if line.startswith("rb\tyang\t") and re.search(r"706f736974696f6e20(3[0-9]){7,}", line):
+            # `position <huge>`: a VALID bits type whose every value is a bitmap of position/8 bytes (up to 512 MiB): accepted
+            # by design, takes seconds under ASan; reported as an observation, not searched further
+            return
         self.labels[line] = label
         out.append(line)
 
@@ -495,6 +499,10 @@ class Robust:
                     A(out, "truncate", L(kind, hexs(t)))
                 elif kind in ("x", "j"):
                     A(out, "truncate", L("data", kind, rng.choice(POPTS), rng.choice(VOPTS), hexs(t)))
+                    if step > 1 and i + 1 <= len(tx):
+                        # the data documents are cut at EVERY position in the quick tier too (look-ahead past the NUL)
+                        A(out, "truncate", L("data", kind, rng.choice(POPTS), rng.choice(VOPTS), hexs(tx[:i + 1])))
+                        A(out, "truncate", L("data", kind, rng.choice(POPTS), rng.choice(VOPTS), hexs(tx[:i + 2])))
                 elif kind == "xp":
                     A(out, "truncate", L(rng.choice(["xfind", "xeval", "sxfind"]), hexs(t)))
                 else:
@@ -608,6 +616,8 @@ class Robust:
         shape = label.split("/")[0] if label.startswith(("deep-", "long-")) else ""
         frames = re.findall(r"#\d+ 0x[0-9a-f]+ in (\S+) (\S+?):\d+", err or "")
         lib = [fn for fn, path in frames if "/src/" in path and "/impl/" not in path]
+        if "lydxml_envelope" in lib[:6] and "lyd_free_tree" in lib[:5]:
+            return "uninit:lydxml_envelope"
         m = re.search(r"runtime error: (.*)", err or "")
         if m:
             msg = m.group(1)
@@ -626,7 +636,8 @@ class Robust:
         if "LeakSanitizer" in (err or "") or "memory leak after case" in (err or ""):
             alloc = [fn for fn in lib if fn not in ("malloc", "calloc", "realloc", "strdup", "strndup")]
             return "leak:%s" % (alloc[0] if alloc else "?")
-        if out.startswith("TIMEOUT"):
+        if out.startswith("TIMEOUT") or out == "CRASH(3)":
+            # exit status 3 is the CPU-limit handler of the driver
             return "timeout:%s:%s" % (entry, shape or label.split(":")[0])
         if out.startswith("CRASH"):
             if "Assertion" in (err or ""):
@@ -638,12 +649,13 @@ class Robust:
                     fm = re.search(r"(\w+)\s*\(", sig)
                     fn = fm.group(1) if fm else sig.split()[-1]
                     # two assertions of one function are two findings: a slug of the expression tells them apart
-                    fn += ":" + re.sub(r"[^A-Za-z0-9_]+", "-", am.group(2)).strip("-")[:40]
+                    fn += ":" + re.sub(r"[^A-Za-z0-9_]+", "-", am.group(2)).strip("-")[:60]
                 return "assert:%s" % fn
             # release build: no report; a deep / long input that kills the process is taken for the stack overflow
             return "stack-overflow:%s:?" % shape if shape else "crash:%s" % entry
         m = re.search(r"!leak\(([^)]*)\)", out)
-        if m:
+        others = [w for w in re.findall(r"!([a-z-]+)", out) if w not in ("dict-strings-left", "ctx-destroy-not-freed", "leak")]
+        if m and not others:
             fr = m.group(1).split(",")
             # generic constructors are named by the first caller that belongs to a parser / compiler
             generic = ("lyd_create_", "lyd_parser_create_", "lydjson_create_", "dict_insert", "lydict_insert", "ly_set_", "lyd_new_", "lyd_dup")
@@ -652,7 +664,13 @@ class Robust:
                     return "leak:%s" % fn
             return "leak:%s" % (fr[0] if fr[0] != "?" else "?:" + entry)
         bang = re.findall(r"!([a-z-]+)", out)
+        # several post-conditions can fail at once: the tag names the most specific one (what is left in the dictionary is the
+        # least specific: it accompanies most other failures)
         first = bang[0] if bang else "?"
+        for w in bang:
+            if w not in ("dict-strings-left", "ctx-destroy-not-freed", "leak"):
+                first = w
+                break
         what = entry
         if first == "log-location-left":
             # which stack was left non-empty names the call site family (schema node: path predicates; path: schema parsers)
